@@ -753,7 +753,12 @@ pub fn realistic_tlv(rng: &mut Rng) -> (u8, Vec<u8>) {
             v.extend(tlv_to_bytes(0x22, b"client.example"));
             (0x20, v)
         }
-        7 => (0x30, b"netns-blue".to_vec()),
+        7 => match rng.below(3) {
+            // (senders written in C tend to include the terminating NUL)
+            0 => (0x30, b"blue\0".to_vec()),
+            1 => (0x02, b"example.com\0".to_vec()),
+            _ => (0x30, b"netns-blue".to_vec()),
+        },
         8 => {
             // PP2_TYPE_AWS, sub-type 1 = VPC endpoint id
             let mut v = vec![0x01];
@@ -761,9 +766,11 @@ pub fn realistic_tlv(rng: &mut Rng) -> (u8, Vec<u8>) {
             (0xEA, v)
         }
         9 => {
-            // PP2_TYPE_AZURE, sub-type 1 = private endpoint link id (u32 LE)
+            // PP2_TYPE_AZURE, sub-type 1 = private endpoint link id (u32 LE); the type is in the
+            // application range, so other shapes are legal too
             let mut v = vec![0x01];
-            v.extend(rng.bytes(4));
+            let n = *rng.pick(&[4usize, 4, 0, 1, 3, 8]);
+            v.extend(rng.bytes(n));
             (0xEE, v)
         }
         10 => (0xE0, rng.bytes(8)),
@@ -808,6 +815,46 @@ pub fn embed_interesting(rng: &mut Rng, v: &mut Vec<u8>) {
         _ => rng.range(0, v.len() - p.len()),
     };
     v[at..at + p.len()].copy_from_slice(p);
+}
+
+/// CRC-32C (Castagnoli), bitwise; as HAProxy computes it for PP2_TYPE_CRC32C.
+pub fn crc32c(data: &[u8]) -> u32 {
+    let mut crc: u32 = !0;
+    for b in data {
+        crc ^= *b as u32;
+        for _ in 0..8 {
+            crc = if crc & 1 != 0 {
+                (crc >> 1) ^ 0x82F6_3B78
+            } else {
+                crc >> 1
+            };
+        }
+    }
+    !crc
+}
+
+/// Fill in the value of the first 4-byte CRC32C TLV (type 3) with the checksum of the whole
+/// header computed with that field zeroed, as a conforming sender does.
+pub fn fix_crc32c(header: &mut [u8], elems: &[Elem]) -> bool {
+    let mut i = 0;
+    while i + 2 < elems.len() {
+        if elems[i].kind == El::TlvType
+            && header[elems[i].start] == 0x03
+            && elems[i + 1].kind == El::TlvLen
+            && header[elems[i + 1].start..elems[i + 1].end] == [0, 4]
+            && elems[i + 2].kind == El::TlvValue
+        {
+            let (s, e) = (elems[i + 2].start, elems[i + 2].end);
+            for b in header[s..e].iter_mut() {
+                *b = 0;
+            }
+            let c = crc32c(header);
+            header[s..e].copy_from_slice(&c.to_be_bytes());
+            return true;
+        }
+        i += 1;
+    }
+    false
 }
 
 pub fn assemble_v2(spec: &V2Spec) -> Wire {
@@ -966,8 +1013,23 @@ pub fn build_v2_real(rng: &mut Rng, spec: &V2Spec) -> Option<Vec<u8>> {
 
 /// A v2 header; about half are produced by the real `Builder`.
 pub fn gen_v2(rng: &mut Rng, big_ok: bool) -> (Wire, V2Spec) {
-    let spec = gen_v2_spec(rng, big_ok);
+    let mut spec = gen_v2_spec(rng, big_ok);
     let mut w = assemble_v2(&spec);
+    if spec.declared.is_none() && rng.chance(2, 3) {
+        // a conforming sender's checksum (when the header carries a CRC32C TLV)
+        let elems = w.elems.clone();
+        if fix_crc32c(&mut w.bytes, &elems) {
+            // keep the spec in step so that the real builder produces the same bytes
+            let mut off = 16 + spec.addr.len();
+            for (t, v) in spec.tlvs.iter_mut() {
+                if *t == 0x03 && v.len() == 4 {
+                    v.copy_from_slice(&w.bytes[off + 3..off + 7]);
+                    break;
+                }
+                off += 3 + v.len();
+            }
+        }
+    }
     if rng.chance(1, 2) {
         if let Some(real) = build_v2_real(rng, &spec) {
             // spans come from the hand assembler; they are only valid if both agree.
